@@ -143,8 +143,8 @@ Qed.
 (** * The verify decision *)
 
 (** the first sync (no level-0 file yet) is always a snapshot read from the WAL header *)
-Lemma verify_first_sync ps last st wal fd :
-  verify ps 0 last st wal fd = VOk (mkInfo WALHeaderSize 0 0 0 true false).
+Lemma verify_first_sync ps last st lo wal fd :
+  verify ps 0 last st lo wal fd = VOk (mkInfo WALHeaderSize 0 0 0 true false).
 Proof. reflexivity. Qed.
 
 (** Whenever verify answers "continue incrementally" it has one of three pieces
@@ -157,8 +157,8 @@ Proof. reflexivity. Qed.
     (C) header salts differ, that frame is still intact, and the file shows no
         salts other than the header's and the last file's before the first
         frame of the last file's generation. *)
-Theorem verify_incremental_evidence_lemma ps pos last st w fd info :
-  verify ps pos last st (Some w) fd = VOk info -> i_snap info = false ->
+Theorem verify_incremental_evidence_lemma ps pos last st lo w fd info :
+  verify ps pos last st lo (Some w) fd = VOk info -> i_snap info = false ->
   let off := l_off last + l_size last in
   let wsz := N.of_nat (length w) in
   let saltMatch := N.eqb (be32 w 16) (l_s1 last) && N.eqb (be32 w 20) (l_s2 last) in
@@ -170,14 +170,14 @@ Theorem verify_incremental_evidence_lemma ps pos last st w fd info :
         exists d, fd = Some d /\
           last_page_match last (be32 w (N.to_nat (off - fsz))) (be32 w (N.to_nat (off - fsz) + 8))
                           (be32 w (N.to_nat (off - fsz) + 12)) d = true))
-   \/ (off <= wsz /\ saltMatch = false /\ i_offset info = WALHeaderSize /\
+   \/ (off <= wsz /\ saltMatch = false /\ lo <> 0 /\ i_offset info = WALHeaderSize /\
        i_s1 info = be32 w 16 /\ i_s2 info = be32 w 20 /\
        (exists d, fd = Some d /\
           last_page_match last (be32 w (N.to_nat (off - fsz))) (be32 w (N.to_nat (off - fsz) + 8))
                           (be32 w (N.to_nat (off - fsz) + 12)) d = true) /\
        detect_full_checkpoint w (be32 w 16) (be32 w 20) (l_s1 last) (l_s2 last) = Some false)).
 Proof.
-  unfold verify. cbn zeta.
+  unfold verify, verify_gen. cbn zeta.
   destruct (N.eqb pos 0) eqn:Ep; [intros [= <-]; discriminate|].
   apply N.eqb_neq in Ep. intros H Hs. split; [exact Ep|].
   destruct (N.ltb (N.of_nat (length w)) (l_off last + l_size last)) eqn:Et.
@@ -202,25 +202,27 @@ Proof.
         destruct sm eqn:Esm; cbn [negb] in H.
         -- injection H as <-. right. left. cbn. split; [exact Et|]. split; [reflexivity|]. split; [reflexivity|].
            right. right. exists d. split; [reflexivity|exact Elpm].
-        -- destruct (detect_full_checkpoint w _ _ _ _) as [[|]|] eqn:Ed; try discriminate.
+        -- cbn [andb] in H. destruct (N.eqb lo 0) eqn:Elo; [injection H as <-; discriminate|].
+           apply N.eqb_neq in Elo.
+           destruct (detect_full_checkpoint w _ _ _ _) as [[|]|] eqn:Ed; try discriminate.
            ++ injection H as <-. discriminate.
            ++ injection H as <-. right. right. cbn. split; [exact Et|]. split; [reflexivity|].
-              split; [reflexivity|]. split; [reflexivity|]. split; [reflexivity|].
+              split; [exact Elo|]. split; [reflexivity|]. split; [reflexivity|]. split; [reflexivity|].
               split; [exists d; split; [reflexivity|exact Elpm]|reflexivity].
 Qed.
 
 (** Without the in-memory flag a WAL shorter than the cursor always forces a snapshot *)
 Theorem verify_truncated_without_flag_snapshots_lemma ps pos last w fd :
   pos <> 0 -> N.of_nat (length w) < l_off last + l_size last ->
-  exists info, verify ps pos last false (Some w) fd = VOk info /\ i_snap info = true.
+  forall lo, exists info, verify ps pos last false lo (Some w) fd = VOk info /\ i_snap info = true.
 Proof.
-  intros Hp Hlt. unfold verify. apply N.eqb_neq in Hp. rewrite Hp.
+  intros Hp Hlt lo. unfold verify, verify_gen. apply N.eqb_neq in Hp. rewrite Hp.
   apply N.ltb_lt in Hlt. rewrite Hlt. eexists. split; reflexivity.
 Qed.
 
 (** A changed header salt with the frame before the cursor overwritten forces a snapshot *)
-Theorem verify_overwritten_prev_frame_snapshots_lemma ps pos last st w d info :
-  verify ps pos last st (Some w) (Some d) = VOk info ->
+Theorem verify_overwritten_prev_frame_snapshots_lemma ps pos last st lo w d info :
+  verify ps pos last st lo (Some w) (Some d) = VOk info ->
   let off := l_off last + l_size last in
   let fsz := ps + WALFrameHeaderSize in
   off <= N.of_nat (length w) -> WALHeaderSize < off - fsz ->
@@ -230,8 +232,25 @@ Theorem verify_overwritten_prev_frame_snapshots_lemma ps pos last st w d info :
 Proof.
   cbn zeta. intros H Hle Hgt Hl.
   destruct (i_snap info) eqn:Es; [reflexivity|exfalso].
-  destruct (verify_incremental_evidence_lemma _ _ _ _ _ _ _ H Es) as [_ [A|[B|C]]]; cbn zeta in *.
+  destruct (verify_incremental_evidence_lemma _ _ _ _ _ _ _ _ H Es) as [_ [A|[B|C]]]; cbn zeta in *.
   - lia.
   - destruct B as (_ & _ & _ & [E|[E|(d' & [= <-] & E)]]); try lia. congruence.
-  - destruct C as (_ & _ & _ & _ & _ & (d' & [= <-] & E) & _). congruence.
+  - destruct C as (_ & _ & _ & _ & _ & _ & (d' & [= <-] & E) & _). congruence.
+Qed.
+
+(** F2 repaired: in a session that has not synced yet (fresh in-memory state: new
+    process, or a DB object re-opened after Close) a changed header salt NEVER lets
+    verify continue incrementally - whatever the WAL holds. *)
+Theorem verify_fresh_session_salt_change_snapshots_lemma ps pos last st w fd info :
+  verify ps pos last st 0 (Some w) fd = VOk info ->
+  (N.eqb (be32 w 16) (l_s1 last) && N.eqb (be32 w 20) (l_s2 last)) = false ->
+  l_off last + l_size last <= N.of_nat (length w) ->
+  i_snap info = true.
+Proof.
+  intros H Hsm Hle.
+  destruct (i_snap info) eqn:Es; [reflexivity|exfalso].
+  destruct (verify_incremental_evidence_lemma _ _ _ _ _ _ _ _ H Es) as [_ [A|[B|C]]]; cbn zeta in *.
+  - lia.
+  - destruct B as (_ & E & _). congruence.
+  - destruct C as (_ & _ & E & _). apply E. reflexivity.
 Qed.
